@@ -18,8 +18,8 @@ CFG = dict(
     assumptions=[
         'the per-input outcomes given to the model are those of the library run in-process by the harness on the '
         'same inputs with the same source kinds (same crate, same tree)',
-        'exprs_eq_file: the library does not distinguish CodeSource::Text from CodeSource::File except in labels '
-        '(checked on the binary: stderr compared up to the source label)'],
+        'exprs_eq_file_upto_labels: the library outcomes for CodeSource::Text and CodeSource::File differ at most in '
+        'the source label inside the diagnostic (checked on the binary: stderr compared up to the source label)'],
 )
 
 CLAIM = dict(
@@ -28,7 +28,7 @@ CLAIM = dict(
           'failing input is evaluated or written (`stops_at_first_failure`); stdout is exactly the print lines and '
           'results of the successful inputs and stderr exactly the diagnostic of the failing one plus the stop line '
           '(`results_to_stdout_errors_to_stderr`, `main_streams`); `-e` expressions behave like a file with the same '
-          'lines (`exprs_eq_file`). Tie: the real `numbat` binary built from the current tree is run on generated '
+          'lines (`exprs_eq_file`; `exprs_eq_file_upto_labels` when the two source kinds differ in the label of diagnostics only). Tie: the real `numbat` binary built from the current tree is run on generated '
           'programs (succeeding; failing at each stage and position) as a file, as `-e` arguments and as file + `-e`; '
           'exit status, stdout and stderr must be byte-equal to the prediction of the compiled model, which is given the '
           'per-input outcomes of the library run in-process; and an independent oracle checks status, stream contents '
